@@ -18,34 +18,143 @@ TRUSTED = [
     "they refuse constructs they do not know; MATLAB array shapes are reversed (column-major runtime)",
     "the meaning of each runtime serializer class/function (VectorSerializer, WriteVector, ...) is the one Model.Binary gives the "
     "corresponding type constructor: tied for Python and C++ by the codec checks (C01/C03), NOT tied for MATLAB (never executed)",
-    "Model/Schema.v structural expansion, tied by C04; the C++ memcpy fast path (IsTriviallySerializable) is covered dynamically "
-    "only (crafted records with padding, bytes compared with the reference encoder)",
+    "Model/Schema.v structural expansion, tied by C04",
+    "Model/CppLayout.v: sizeof/alignof/offsetof of the generated C++ types after the Itanium ABI on x86-64 with libstdc++ "
+    "(std::array<T,0> one byte; FixedNDArray = its elements, as in the shim - the real xtensor_fixed is not installed), and the value "
+    "of IsTriviallySerializable; tied by a probe compiled with g++ against the generated code (trait, sizeof, offsetof per record) "
+    "and by running crafted and random records through generated C++ and Python; that the object bytes of bool, 8-bit integers, "
+    "IEEE floats and std::complex are their little-endian encoding is assumed (x86-64)",
 ]
 CFG = ("cpp:\n  sourcesOutputDir: ../out/cpp\n  generateCMakeLists: false\n  generateHDF5: false\npython:\n  outputDir: ../out/python\n"
        "json:\n  outputDir: ../out/json\nmatlab:\n  outputDir: ../out/matlab\n")
 BACKENDS = ["python-binary", "python-ndjson", "matlab-binary", "c++-binary"]
 
 
-def padding_package():
-    """records whose in-memory layout has padding: the C++ memcpy fast path must not be taken for them"""
+LAYOUT_PRIMS = ["bool", "int8", "uint8", "int16", "uint16", "int32", "uint32", "int64", "uint64", "size",
+                "float32", "float64", "complexfloat32", "complexfloat64"]
+
+
+def padding_package(rng=None, n_random=0):
+    """records whose in-memory layout has padding (the C++ memcpy fast path must not be taken for them), packed ones (it may),
+    zero-length fixed vectors / arrays (they occupy a byte in C++ and none in the stream), and n_random random records over the
+    types Model.CppLayout models plus a few it does not (string, vector, optional: the trait must be false)"""
     from ymodel import T, prim, Package
     pkg = Package("Pad")
     d = pkg.defs
+    recs = []
 
     def rec(name, fields):
-        d.append((name, "%s: !record\n  fields:\n%s" % (name, "\n".join("    %s: %s" % (n, t.spell) for n, t in fields))))
-        return T("rec", name, name=name, fields=fields)
+        d.append((name, "%s: !record\n  fields:\n%s" % (name, "\n".join("    %s: %s" % (n, ymodel.yq(t.spell)) for n, t in fields))))
+        r = T("rec", name, name=name, fields=fields)
+        recs.append(r)
+        return r
+
+    def fixvec(t, n):
+        return T("fixvec", "%s*%d" % (t.spell, n), e=t, n=n)
+
+    def fixarr(t, dims):
+        return T("fixarr", "%s[%s]" % (t.spell, ", ".join(map(str, dims))), dims=list(dims), e=t)
+
+    def vec(t):
+        return T("vec", t.spell + "*", e=t)
     ra = rec("Ra", [("a", prim("int8")), ("b", prim("float32"))])
     rb = rec("Rb", [("a", prim("uint8")), ("b", prim("float64")), ("c", prim("uint8"))])
     rc = rec("Rc", [("a", prim("float32")), ("b", prim("complexfloat64")), ("c", prim("int8"))])
     rd = rec("Rd", [("a", prim("float32")), ("b", prim("float32"))])        # packed: the fast path is legitimate
     re_ = rec("Re", [("x", ra), ("y", prim("uint8"))])
-
-    def vec(t):
-        return T("vec", t.spell + "*", e=t)
-    pkg.protocols.append(("Ppad", [("a", vec(ra), False), ("b", rb, True), ("c", vec(rc), False), ("d", vec(rd), False),
-                                   ("e", T("fixvec", "Re*3", e=re_, n=3), True)]))
+    # zero-length members: sizeof(std::array<T,0>) = 1, no byte in the stream
+    rz1 = rec("Rz1", [("a", fixvec(prim("uint8"), 0)), ("b", prim("uint8"))])
+    rz2 = rec("Rz2", [("a", prim("int8")), ("b", fixvec(prim("float32"), 0)), ("c", prim("bool"))])
+    rz3 = rec("Rz3", [("a", fixarr(prim("uint8"), [2, 0])), ("b", prim("uint8")), ("c", fixvec(rd, 0))])
+    rz4 = rec("Rz4", [("a", fixvec(prim("uint8"), 3)), ("b", rz1), ("c", fixarr(prim("int8"), [1, 1]))])
+    steps = [("a", vec(ra), False), ("b", rb, True), ("c", vec(rc), False), ("d", vec(rd), False),
+             ("e", fixvec(re_, 3), True), ("z1", rz1, False), ("z2", vec(rz2), False), ("z3", rz3, False),
+             ("z4", fixvec(rz4, 2), False), ("z5", fixvec(prim("float64"), 0), False)]
+    if rng is not None:
+        for i in range(n_random):
+            fields = []
+            # half of the records draw their scalars from one size class, so that packed layouts are common
+            cls = rng.choice([None, ["bool", "int8", "uint8"], ["float32", "complexfloat32"], ["float64", "complexfloat64"]])
+            for j in range(rng.randint(1, 5)):
+                r_ = rng.random()
+                if cls is not None and r_ < 0.8:
+                    t = prim(rng.choice(cls))
+                    if rng.random() < 0.3:
+                        t = fixvec(t, rng.choice([0, 1, 2, 3])) if rng.random() < 0.6 else fixarr(t, [rng.choice([0, 1, 2]), rng.choice([1, 2])])
+                elif r_ < 0.55:
+                    t = prim(rng.choice(LAYOUT_PRIMS if rng.random() < 0.5 else
+                                        ["bool", "int8", "uint8", "float32", "float64", "complexfloat32", "complexfloat64"]))
+                elif r_ < 0.7:
+                    t = rng.choice(recs)
+                elif r_ < 0.82:
+                    t = fixvec(prim(rng.choice(LAYOUT_PRIMS)) if rng.random() < 0.7 else rng.choice(recs), rng.choice([0, 1, 2, 3]))
+                elif r_ < 0.92:
+                    t = fixarr(prim(rng.choice(LAYOUT_PRIMS)), [rng.choice([0, 1, 2, 3]) for _ in range(rng.randint(1, 2))])
+                else:
+                    t = rng.choice([prim("string"), vec(prim("uint8")), T("opt", "float32?", e=prim("float32"))])
+                fields.append(("f%d" % j, t))
+            r = rec("Rr%d" % i, fields)
+            steps.append(("r%d" % i, r if rng.random() < 0.5 else vec(r), False))
+    pkg.protocols.append(("Ppad", steps))
+    pkg.records = recs
     return pkg
+
+
+def layout_probe(ctx, gp):
+    """compile a probe against the generated C++ that prints, per record, the trait, sizeof and every offsetof;
+    returns {record name: (trait, sizeof, [offsets])}"""
+    ns = gp.pkg.namespace.lower()
+    lines = ['#include "generated/binary/protocols.cc"', "#include <cstdio>", "#include <cstddef>",
+             "#pragma GCC diagnostic ignored \"-Winvalid-offsetof\"", "int main() {"]
+    for r in gp.pkg.records:
+        offs = "".join(', (unsigned long)offsetof(%s::%s, %s)' % (ns, r.name, n) for n, _ in r.fields)
+        lines.append('  std::printf("%s %%d %%lu%s\\n", (int)yardl::binary::IsTriviallySerializable<%s::%s>::value, '
+                     '(unsigned long)sizeof(%s::%s)%s);' % (r.name, " %lu" * len(r.fields), ns, r.name, ns, r.name, offs))
+    lines.append("  return 0;\n}")
+    cdir = os.path.join(gp.dir, "cpp")
+    open(os.path.join(cdir, "probe.cc"), "w").write("\n".join(lines) + "\n")
+    rc, o, e = sh(["g++", "-std=c++17", "-O0", "-w", "-I", genrun.SHIMS, "-I", "generated", "probe.cc", "generated/types.cc",
+                   "generated/protocols.cc", "-o", "probe"], cwd=cdir, timeout=900)
+    if rc != 0:
+        return None, e[-2000:]
+    rc, o, e = sh([os.path.join(cdir, "probe")], cwd=cdir, timeout=60)
+    out = {}
+    for ln in o.split("\n"):
+        t = ln.split()
+        if t:
+            out[t[0]] = (int(t[1]), int(t[2]), [int(x) for x in t[3:]])
+    return out, ""
+
+
+def layout_layer(ctx, gp):
+    """Model.CppLayout against the compiler: trait value, sizeof and offsetof of every record of the crafted package"""
+    probe, err = layout_probe(ctx, gp)
+    if probe is None:
+        ctx.report("layout-probe-compile", "the probe for IsTriviallySerializable/sizeof/offsetof does not compile against the "
+                   "generated C++ (trait specializations moved or renamed?)", {"model": gp.pkg.yaml(), "error": err,
+                   "broken": "correspondence Model.CppLayout vs generated binary/protocols.cc"}, no_input=True)
+        return
+    items = []
+    for r in gp.pkg.records:
+        tr, sz, offs = probe[r.name]
+        items.append("(%s, %s, %d, [%s])" % (r.coq(), "true" if tr else "false", sz, "; ".join(map(str, offs))))
+    body = ("From Coq Require Import List NArith ZArith Bool.\nImport ListNotations.\nOpen Scope N_scope.\n"
+            "From YV Require Import Base.Wire Model.Binary Model.CppLayout Model.PlanCases.\n"
+            "Definition cases : list laycase := [\n " + ";\n ".join(items) + "\n].\n"
+            "Definition ST := Eval vm_compute in map laycase_status cases.\nPrint ST.\n")
+    st = Ctx.parse_nat_list(ctx.coq_eval("layout", body, timeout=900), "ST")
+    for r, s_ in zip(gp.pkg.records, st):
+        tr, sz, offs = probe[r.name]
+        ctx.case(("layout", r.name, r.coq()), sample={"record": r.name, "trait": bool(tr), "sizeof": sz, "offsets": offs, "status": s_})
+        ctx.count("layout_trait", "trivially-serializable" if tr else "field-by-field")
+        ctx.count("layout_model_agreement", {0: "trait+sizeof+offsets", 1: "trait only (a member type has no layout in the model)"}.get(s_, "DIFFERS"))
+        if s_ >= 2:
+            what = {2: "the value of IsTriviallySerializable", 3: "sizeof", 4: "offsetof"}.get(s_, "?")
+            ctx.report("layout-model-differs:%d" % s_, "Model.CppLayout and the compiler disagree on %s of record %s %s: the compiler says "
+                       "trait=%d sizeof=%d offsets=%s" % (what, r.name, [(n, t.spell) for n, t in r.fields], tr, sz, offs),
+                       {"model": gp.pkg.yaml(), "record": r.name, "compiler": {"trait": tr, "sizeof": sz, "offsets": offs},
+                        "broken": "correspondence Model.CppLayout (ts true / layout / offsets_of) vs g++ on the generated C++ "
+                                  "(theorem C14_memcpy_fast_path_sound no longer about the code)"}, no_input=True)
 
 
 def run(ctx):
@@ -140,13 +249,14 @@ def run(ctx):
                 ctx.report("ndjson-tag-decision", "generated Python NDJSON code decides tagged/untagged for a union differently from "
                            "Model.Json.simple_union on the regenerated kind table", dict(rep0, check=u))
     # dynamic: padded records through generated C++ and Python
-    gp = genrun.GenPackage(ctx, padding_package(), "pad", ndjson=False, cpp=True)
+    gp = genrun.GenPackage(ctx, padding_package(rng, 12 if quick else 60), "pad", ndjson=False, cpp=True)
     if not gp.generate():
         raise RuntimeError("yardl rejected the padding package: " + gp.gen_out[-800:])
     gp.schemas_ = gp.schemas()
     if not gp.cpp_build():
         ctx.report("cpp-compile:pad", "generated C++ of the padding package does not compile", {"model": gp.pkg.yaml(), "error": gp.cpp_err[-2000:]})
     else:
+        layout_layer(ctx, gp)
         gp.py_start()
         bcases, bmeta = [], []
         try:
